@@ -79,3 +79,13 @@ From TA Require Import Proofs.FloatSlow.
 Theorem C07_slow_binary64_range : forall p q s xs, slow_new FOps p q = Ok s -> (q < 35184372088832)%N -> Forall inb xs ->
   Forall (fun o => finF o /\ (0 <= FR o <= 100 + 1700 * (IZR (Z.of_N q) + 1) * u)%R) (slow_outs FOps s xs).
 Proof. exact slow_float_range. Qed.
+(* the bar paths (finite prices free of -0.0, low <= close <= high): FastStochastic in [0,100] exactly, SlowStochastic as above *)
+Theorem C07_fast_bar_binary64_range : forall p s bars, fast_new FOps p = Ok s -> Forall inbar bars ->
+  Forall (fun o => finF o /\ (0 <= FR o <= 100)%R) (fast_bar_outs FOps s bars).
+Proof. exact fast_bar_float_range. Qed.
+Theorem C07_slow_bar_binary64_range : forall p q s bars, slow_new FOps p q = Ok s -> (q < 35184372088832)%N -> Forall inbar bars ->
+  Forall (fun o => finF o /\ (0 <= FR o <= 100 + 1700 * (IZR (Z.of_N q) + 1) * u)%R) (slow_bar_outs FOps s bars).
+Proof. exact slow_bar_float_range. Qed.
+Theorem C07_inbar_def : forall b, inbar b <->
+  (inb (b_high b) /\ inb (b_low b) /\ finF (b_close b) /\ (Rabs (FR (b_close b)) <= BIG / 4)%R /\ (FR (b_low b) <= FR (b_close b) <= FR (b_high b))%R).
+Proof. intros. reflexivity. Qed.
